@@ -461,6 +461,13 @@ pub fn run_writer(prog: &Value, dev: &Dev, t: &mut TraceOut) -> WriteOutcome {
                     Some(rep) if rep.is_array() => w.finalize_customized_xml(|xml| {
                         let mut x = xml;
                         for pair in rep.as_array().unwrap() {
+                            if pair[0] == "\u{0}ALL-LINE-FEEDS-BUT-THE-FIRST" {
+                                // the XML declaration on its own line, everything else on one long line
+                                if let Some((head, tail)) = x.clone().split_once('\n') {
+                                    x = format!("{head}\n{}", tail.trim_end_matches('\n').replace('\n', pair[1].as_str().unwrap()));
+                                }
+                                continue;
+                            }
                             x = x.replacen(pair[0].as_str().unwrap(), pair[1].as_str().unwrap(), 1);
                         }
                         Ok(x)
